@@ -85,7 +85,7 @@ def run_moves(res, ast, rules=("PROBE-DIR", "UNSAFE-TWIN", "WIN-ENTRY", "BC-BRAN
                     # before the entry call
                     entry = [c for c in walk_t(fn["body"], "Call") if path_name(c["func"]) in ("entry",)] + \
                             [m for m in walk_t(fn["body"], "MethodCall") if m["method"] in ("call",)]
-                    ok = ok and all(calls[0]["sp"][0] < e["sp"][0] for e in entry)
+                    ok = ok and all(before(calls[0], e) for e in entry)
                 res.check(ok, "WIN-ENTRY", f"{path}|enter_jit_code", where(path, fn, "enter_jit_code"),
                           f"{ty}::enter_jit_code must call make_accessible(min_accessed, max_accessed + 1) before entering the machine code")
             except Missing as m:
@@ -123,7 +123,7 @@ def run_prealloc(res, ast):
                 n += 1
                 ctxarg = T(ast, path, c["args"][0]) if c["args"] else ""
                 cname = ctxarg.replace("&mut", "")
-                pre = [m for m in walk_t(f["node"]["body"], "MethodCall") if m["method"] == "make_accessible" and m["sp"][0] < c["sp"][0]
+                pre = [m for m in walk_t(f["node"]["body"], "MethodCall") if m["method"] == "make_accessible" and before(m, c)
                        and T(ast, path, m["receiver"]).startswith(cname + ".memory")]
                 # the default trait method forwards to execute (no unchecked code)
                 res.check(bool(pre), "PREALLOC-PAIR", f"{path}|{f['name']}|execute_unsafe", where(path, c, f["name"]),
